@@ -31,18 +31,22 @@ Qed.
 Lemma or_masks_In (cmask : cref -> mask) (clauses : list cref) (i : nat) : In i (or_masks cmask clauses) <-> exists c, In c clauses /\ In i (cmask c).
 Proof. unfold or_masks. rewrite or_masks_acc. simpl. tauto. Qed.
 
-Lemma getPartitions_In (parts : partmap) (m : mask) (t : term) : In t (getPartitions parts m) <-> exists i, In (t, i) parts /\ In i m.
+Lemma getPartitions_In (parts : partmap) (m : mask) (t : term) :
+  In t (getPartitions parts m) <-> exists is i, In (t, is) parts /\ In i is /\ In i m.
 Proof.
   unfold getPartitions. rewrite in_map_iff. split.
-  - intros ([t' i] & <- & H). apply filter_In in H. destruct H as [H1 H2]. simpl in *. apply tstbit_In in H2. eauto.
-  - intros (i & H1 & H2). exists (t, i). split; [reflexivity|]. apply filter_In. split; [exact H1|]. simpl. apply tstbit_In, H2.
+  - intros ([t' is] & <- & H). apply filter_In in H. destruct H as [H1 H2]. simpl in *.
+    apply existsb_exists in H2. destruct H2 as (i & Hi & Hb). apply tstbit_In in Hb. exists is, i. auto.
+  - intros (is & i & H1 & H2 & H3). exists (t, is). split; [reflexivity|]. apply filter_In. split; [exact H1|]. simpl.
+    apply existsb_exists. exists i. split; [exact H2 | apply tstbit_In, H3].
 Qed.
 
-Lemma getPartitions_mono (cmask : cref -> mask) (parts : partmap) (clauses : list cref) (c : cref) (t : term) :
-  In c clauses -> In t (getPartitions parts (cmask c)) -> In t (mapClausesToTerms cmask parts clauses).
+Lemma getPartitions_mono (cmask : cref -> mask) (parts : partmap) orig (clauses : list cref) (c : cref) (t : term) :
+  In c clauses -> In t (map orig (getPartitions parts (cmask c))) -> In t (mapClausesToTerms cmask parts orig clauses).
 Proof.
-  unfold mapClausesToTerms. rewrite !getPartitions_In. intros Hc (i & H1 & H2). exists i. split; [exact H1|].
-  apply or_masks_In. eauto.
+  unfold mapClausesToTerms. rewrite !in_map_iff. intros Hc (t0 & <- & Ht). exists t0. split; [reflexivity|].
+  apply getPartitions_In in Ht. destruct Ht as (is & i & H1 & H2 & H3). apply getPartitions_In. exists is, i.
+  split; [exact H1|]. split; [exact H2|]. apply or_masks_In. eauto.
 Qed.
 
 (* ---- the traversal ----------------------------------------------------------------------------- *)
@@ -148,12 +152,12 @@ Section Sound.
 
   (* every original leaf is implied by the assertions its partition mask maps to (through the map as it is
      when the core is built) *)
-  Definition masks_correct (cmask : cref -> mask) (parts : partmap) (leaves : list cref) : Prop :=
-    forall c, In c leaves -> forall w, (forall t, In t (getPartitions parts (cmask c)) -> holds_t w t) -> holds_c w c.
+  Definition masks_correct (cmask : cref -> mask) (parts : partmap) (orig : term -> term) (leaves : list cref) : Prop :=
+    forall c, In c leaves -> forall w, (forall t, In t (map orig (getPartitions parts (cmask c))) -> holds_t w t) -> holds_c w c.
 
-  Theorem core_unsat_lemma undef P cmask parts leaves :
-    valid_refutation undef P -> computeClauses undef P = Some leaves -> masks_correct cmask parts leaves ->
-    ~ sat (mapClausesToTerms cmask parts leaves).
+  Theorem core_unsat_lemma undef P cmask parts orig leaves :
+    valid_refutation undef P -> computeClauses undef P = Some leaves -> masks_correct cmask parts orig leaves ->
+    ~ sat (mapClausesToTerms cmask parts orig leaves).
   Proof.
     intros ((rank & Hrank) & Hstep & Hleaf & Hroot) Hc Hm (w & Hw).
     unfold computeClauses in Hc.
@@ -188,25 +192,25 @@ Section Sound.
     In t (fst (partitionNamedTerms minCore false contains allTerms)) <-> In t allTerms /\ contains t = true.
   Proof. unfold partitionNamedTerms. simpl. apply filter_In. Qed.
 
-  Theorem core_named_unsat_lemma undef P cmask parts leaves ne contains :
-    valid_refutation undef P -> computeClauses undef P = Some leaves -> masks_correct cmask parts leaves ->
-    let allTerms := mapClausesToTerms cmask parts leaves in
+  Theorem core_named_unsat_lemma undef P cmask parts orig leaves ne contains :
+    valid_refutation undef P -> computeClauses undef P = Some leaves -> masks_correct cmask parts orig leaves ->
+    let allTerms := mapClausesToTerms cmask parts orig leaves in
     let nh := partitionNamedTerms false ne contains allTerms in
     ~ sat (fst nh ++ snd nh).
   Proof.
-    intros Hv Hc Hm allTerms nh Hs. apply (core_unsat_lemma undef P cmask parts leaves Hv Hc Hm).
+    intros Hv Hc Hm allTerms nh Hs. apply (core_unsat_lemma undef P cmask parts orig leaves Hv Hc Hm).
     eapply sat_mono; [|exact Hs]. intros t Ht. apply partition_covers; [reflexivity | exact Ht].
   Qed.
 
   (* ... hence the printed names' terms together with ALL unnamed current assertions, provided every
      extracted term that carries no name is an unnamed current assertion *)
-  Theorem core_with_unnamed_unsat_lemma undef P cmask parts leaves ne contains unnamed :
-    valid_refutation undef P -> computeClauses undef P = Some leaves -> masks_correct cmask parts leaves ->
-    let allTerms := mapClausesToTerms cmask parts leaves in
+  Theorem core_with_unnamed_unsat_lemma undef P cmask parts orig leaves ne contains unnamed :
+    valid_refutation undef P -> computeClauses undef P = Some leaves -> masks_correct cmask parts orig leaves ->
+    let allTerms := mapClausesToTerms cmask parts orig leaves in
     (forall t, In t allTerms -> (ne = true \/ contains t = false) -> In t unnamed) ->
     ~ sat (fst (partitionNamedTerms false ne contains allTerms) ++ unnamed).
   Proof.
-    intros Hv Hc Hm allTerms Hu Hs. apply (core_unsat_lemma undef P cmask parts leaves Hv Hc Hm).
+    intros Hv Hc Hm allTerms Hu Hs. apply (core_unsat_lemma undef P cmask parts orig leaves Hv Hc Hm).
     eapply sat_mono; [|exact Hs]. intros t Ht. fold allTerms in Ht. apply in_or_app.
     unfold partitionNamedTerms. destruct ne; simpl; [right; apply Hu; auto|].
     destruct (contains t) eqn:E; [left; apply filter_In; auto | right; apply Hu; auto].
@@ -222,37 +226,54 @@ Definition rx_holds_t (w : bool) (t : term) : Prop := match t with 1 => w = true
 Definition rx_holds_c (w : bool) (c : cref) : Prop := match c with 10 => w = true | 12 => w = false | 99 => False | _ => True end.
 Definition rx_proof : proof := [(10, mk_der CLA_ORIG []); (12, mk_der CLA_ORIG []); (99, mk_der CLA_LEARNT [10; 12])].
 Definition rx_cmask (c : cref) : mask := match c with 10 => [0%nat] | 12 => [2%nat] | _ => [] end.
-Definition rx_parts_first : partmap := pm_set 1 0 [].
-Definition rx_parts_final : partmap := pm_set 2 2 (pm_set 1 1 rx_parts_first).
+Definition rx_parts_first : partmap := pm_set false 1 0 [].
+Definition rx_parts_final : partmap := pm_set false 2 2 (pm_set false 1 1 rx_parts_first).
+Definition rx_parts_final_repaired : partmap := pm_set true 2 2 (pm_set true 1 1 (pm_set true 1 0 [])).
+Definition rx_id (t : term) : term := t.
+
+Lemma rx_valid : valid_refutation bool rx_holds_c 99 rx_proof.
+Proof.
+  split; [|split; [|split]].
+  - exists (fun c => match c with 99 => 1%nat | _ => 0%nat end). intros c d H Ht p Hp.
+    unfold rx_proof in H. simpl in H.
+    destruct (N.eqb c 10); [injection H as <-; discriminate|].
+    destruct (N.eqb c 12); [injection H as <-; discriminate|].
+    destruct (N.eqb_spec c 99); [|discriminate]. injection H as <-. subst c. simpl in Hp.
+    destruct Hp as [<-|[<-|[]]]; simpl; lia.
+  - intros c d H Ht w Hp. unfold rx_proof in H. simpl in H.
+    destruct (N.eqb c 10); [injection H as <-; discriminate|].
+    destruct (N.eqb c 12); [injection H as <-; discriminate|].
+    destruct (N.eqb_spec c 99); [|discriminate]. injection H as <-. subst c. simpl in Hp.
+    pose proof (Hp 10 (or_introl eq_refl)) as A. pose proof (Hp 12 (or_intror (or_introl eq_refl))) as B.
+    simpl in A, B. congruence.
+  - intros c d H H1 H2 w. unfold rx_proof in H. simpl in H.
+    destruct (N.eqb c 10); [injection H as <-; simpl in H1; congruence|].
+    destruct (N.eqb c 12); [injection H as <-; simpl in H1; congruence|].
+    destruct (N.eqb c 99); [injection H as <-; simpl in H2; congruence|discriminate].
+  - intros w H. exact H.
+Qed.
 
 Lemma reindex_witness :
   valid_refutation bool rx_holds_c 99 rx_proof /\
   computeClauses 99 rx_proof = Some [12; 10] /\
-  masks_correct bool rx_holds_c rx_holds_t rx_cmask rx_parts_first [10] /\
-  mapClausesToTerms rx_cmask rx_parts_final [12; 10] = [2] /\
+  masks_correct bool rx_holds_c rx_holds_t rx_cmask rx_parts_first rx_id [10] /\
+  mapClausesToTerms rx_cmask rx_parts_final rx_id [12; 10] = [2] /\
   sat bool rx_holds_t [2].
 Proof.
-  split; [|split; [vm_compute; reflexivity|split; [|split; [vm_compute; reflexivity|]]]].
-  - split; [|split; [|split]].
-    + exists (fun c => match c with 99 => 1%nat | _ => 0%nat end). intros c d H Ht p Hp.
-      unfold rx_proof in H. simpl in H.
-      destruct (N.eqb c 10); [injection H as <-; discriminate|].
-      destruct (N.eqb c 12); [injection H as <-; discriminate|].
-      destruct (N.eqb_spec c 99); [|discriminate]. injection H as <-. subst c. simpl in Hp.
-      destruct Hp as [<-|[<-|[]]]; simpl; lia.
-    + intros c d H Ht w Hp. unfold rx_proof in H. simpl in H.
-      destruct (N.eqb c 10); [injection H as <-; discriminate|].
-      destruct (N.eqb c 12); [injection H as <-; discriminate|].
-      destruct (N.eqb_spec c 99); [|discriminate]. injection H as <-. subst c. simpl in Hp.
-      pose proof (Hp 10 (or_introl eq_refl)) as A. pose proof (Hp 12 (or_intror (or_introl eq_refl))) as B.
-      simpl in A, B. congruence.
-    + intros c d H H1 H2 w. unfold rx_proof in H. simpl in H.
-      destruct (N.eqb c 10); [injection H as <-; simpl in H1; congruence|].
-      destruct (N.eqb c 12); [injection H as <-; simpl in H1; congruence|].
-      destruct (N.eqb c 99); [injection H as <-; simpl in H2; congruence|discriminate].
-    + intros w H. exact H.
+  split; [exact rx_valid|split; [vm_compute; reflexivity|split; [|split; [vm_compute; reflexivity|]]]].
   - intros c [<-|[]] w H. simpl. apply (H 1). vm_compute. left. reflexivity.
   - exists false. intros t [<-|[]]. reflexivity.
+Qed.
+
+(* with every index kept the masks stay correct and the extracted set is {a, (not a)} *)
+Lemma reindex_repaired_witness :
+  masks_correct bool rx_holds_c rx_holds_t rx_cmask rx_parts_final_repaired rx_id [12; 10] /\
+  mapClausesToTerms rx_cmask rx_parts_final_repaired rx_id [12; 10] = [1; 2].
+Proof.
+  split; [|vm_compute; reflexivity].
+  intros c [<-|[<-|[]]] w H; simpl.
+  - apply (H 2). vm_compute. left. reflexivity.
+  - apply (H 1). vm_compute. left. reflexivity.
 Qed.
 
 (* ---- TermNames ---------------------------------------------------------------------------------- *)
